@@ -141,6 +141,30 @@ class CoopLock:
             E.labels.append(f'lr:{t}')
 
 
+class CoopEvent:
+    """threading.Event with schedule points (for hand-shakes a rewrite of the helpers might use)."""
+
+    def __init__(self, E=None):
+        self.flag = False
+        self.E = E
+
+    def set(self):
+        (self.E or ENV).S.point('event.set')
+        self.flag = True
+        (self.E or ENV).S.point('event.set.done')      # whoever waits may run before the setter's next statement
+
+    def clear(self):
+        self.flag = False
+
+    def is_set(self):
+        return self.flag
+
+    def wait(self, timeout=None):
+        S = (self.E or ENV).S
+        S.point('event.wait', enabled=lambda: self.flag, deadline=None if timeout is None else S.vt + timeout)
+        return self.flag
+
+
 class LockTable(dict):
     E = None
 
@@ -220,8 +244,14 @@ def run_case(case, seed, pct=0, choices=None):
     E = Env(S)
     E.dispatching = {}
     ENV = E
-    saved = {k: getattr(A, k) for k in ('_CROSS_LOOP_POOL', '_LOOP_LOCKS', '_LOOP_LOCKS_CREATE_LOCK', 'Lock', 'sleep',
-                                         'run_coro_ts')}
+    # whatever the module imports from threading / time for its hand-shakes is replaced by cooperative versions
+    # (an attribute that a rewrite no longer imports is simply not there to be replaced)
+    _MISSING = object()
+    saved = {k: getattr(A, k, _MISSING) for k in ('_CROSS_LOOP_POOL', '_LOOP_LOCKS', '_LOOP_LOCKS_CREATE_LOCK', 'Lock',
+                                                   'sleep', 'run_coro_ts', 'Event', 'Condition', 'Semaphore',
+                                                   'Barrier')}
+    if saved['Event'] is not _MISSING and saved['Event'] is threading.Event:
+        A.Event = lambda: CoopEvent(E)
     A._CROSS_LOOP_POOL = CoopPool(E)
     A._LOOP_LOCKS = LockTable()
     A._LOOP_LOCKS.E = E
@@ -330,7 +360,11 @@ def run_case(case, seed, pct=0, choices=None):
         S.run(wall_timeout=20)
     finally:
         for k, v in saved.items():
-            setattr(A, k, v)
+            if v is _MISSING:
+                if hasattr(A, k):
+                    delattr(A, k)
+            else:
+                setattr(A, k, v)
     # 'own' mode: labels of the own-loop caller are not part of the model (inline branch)
     out = dict(labels=E.labels, res=res, info=info, hung=S.hung, errors=S.errors, trace=S.trace,
                max_running=E.max_running)
